@@ -39,6 +39,9 @@ BASE_CONTEXT = ("IMPORTANT CONTEXT: this worktree is NOT the upstream code: it a
                 "or in how a function passes arguments to a helper.\n\n")
 
 STEERS = {
+    "9": "Prefer a change in a code path that is NOT the main one: the branch of an optional argument (retH, BW given, fs given, return_seed, sps_resamp omitted, a non-default pulse shape or decision mode), the handling of the second "
+         "polarisation / of the noise component / of a plain ndarray or list input instead of a signal object, an error path (which exception is raised, or none), something returned alongside the main result (the second element "
+         "of a returned tuple, an attribute of the returned object), or the interplay of two public functions the property relates (a round trip, a composition, one function's output fed to the other, two siblings that must agree).",
     "8": "Prefer a change of one of these kinds, whichever fits the code: a performance 'optimisation' that is subtly wrong (a value cached or precomputed once that should follow its inputs, a loop replaced by a "
          "vectorised expression that treats one case differently, an early exit for a 'trivial' input, work skipped when a parameter has a 'neutral' value that is not quite neutral); a 'robustness' edit that alters a "
          "result (clipping, nan_to_num, abs, np.maximum with a floor, a default fallback, a try/except that swallows an error and continues); an edit confined to ONE of two sibling branches (one vs two polarisations, "
@@ -117,6 +120,14 @@ Steps, for k = 1..5:
 Finally `git checkout -- opticomlib` and run contract_check.py once on the pristine code too (must PASS; features that do not exist there are skipped).
 Reply with, for each k: the function, what changes observably, why the contract still holds, and the commands run with outcomes. Leave small_1.diff .. small_5.diff and contract_check.py in {wt}; do not commit. Never call devices.FIBER without a `timeout` wrapper and small inputs.{extra}'''
 
+SMALL2_KINDS = """ (i) a performance optimisation whose results are identical (a loop vectorised, an invariant hoisted, a temporary avoided, a result cached under a key that contains EVERYTHING it depends on including the gv values read); (j) input coercion / normalisation (np.asarray, float()/int() after validation, numpy scalars and 0-d arrays accepted, a shared private helper that normalises an argument for two functions); (k) a deprecation shim (an old spelling or parameter name kept working with a DeprecationWarning, the new one preferred); (l) a private helper factored out of one function or shared by two, with the raise/warn sites kept but their messages unified; (m) logging / warnings / progress reporting / an extra diagnostic return behind a flag; (n) a defensive guard for degenerate inputs OUTSIDE the contract's domain (empty, NaN, zero range, zero power) that returns something sensible instead of crashing or looping; (o) a library call replaced by an equivalent one (np.kron vs np.repeat, .sum() vs np.add.reduce, np.where vs boolean-mask store, math vs numpy on scalars, f-strings vs format) with identical results; (p) a changed dtype / container of an intermediate or of a part of the result the contract does not fix (float32 never; e.g. list -> tuple, int64 -> intp, python float -> np.float64)."""
+
+SMALL2_TMPL = SMALL_TMPL.replace("FIVE SEPARATE", "SIX SEPARATE").replace("each 3-25 changed lines", "each 5-40 changed lines").replace("(3-25 changed lines)", "(5-40 changed lines)") \
+    .replace("Make the five commits of DIFFERENT kinds", "Make the six commits of DIFFERENT kinds").replace("for k = 1..5", "for k = 1..6").replace("small_1.diff .. small_5.diff", "small_1.diff .. small_6.diff").replace("reuse for all five", "reuse for all six")
+_a = SMALL2_TMPL.index(" (a) a new optional parameter")
+_b = SMALL2_TMPL.index("Keep the code clean and plausible (Python 3.12); no comments that announce")
+SMALL2_TMPL = SMALL2_TMPL[:_a] + SMALL2_KINDS + "\n" + SMALL2_TMPL[_b:]
+
 NEUTRAL_TMPL = '''You are helping test a static-analysis tool for false alarms. Work ONLY inside the git worktree {wt} (a checkout of the Python library "opticomlib"). Do not read or write anything under /verif or /repo.
 
 Your job: REFACTOR the following functions WITHOUT changing their behaviour in any way: in {file}: {funcs}.
@@ -171,6 +182,13 @@ def main():
             worktree(wt)
             txt = "\n\n".join(f"[{pid}] {props[pid]['title']}\nSTATEMENT: {props[pid]['statement']}\nQUANTIFIED OVER: {props[pid]['quantifier']['text']}" for pid in GROUP_PROPS[g])
             open(f'{d}/prompt_{g}.txt', 'w').write(SMALL_TMPL.format(wt=wt, file=f, funcs=fu, props=txt, extra=LAB_NOTE if g == "lab" else ""))
+    elif kind == "small2":
+        props = {json.loads(l)['id']: json.loads(l) for l in open('/verif/properties.jsonl')}
+        for g, (f, fu) in GROUPS.items():
+            wt = f'{d}/{g}'
+            worktree(wt)
+            txt = "\n\n".join(f"[{pid}] {props[pid]['title']}\nSTATEMENT: {props[pid]['statement']}\nQUANTIFIED OVER: {props[pid]['quantifier']['text']}" for pid in GROUP_PROPS[g])
+            open(f'{d}/prompt_{g}.txt', 'w').write(SMALL2_TMPL.format(wt=wt, file=f, funcs=fu, props=txt, extra=LAB_NOTE if g == "lab" else ""))
     elif kind == "feature":
         props = {json.loads(l)['id']: json.loads(l) for l in open('/verif/properties.jsonl')}
         for g, (f, fu) in GROUPS.items():
